@@ -383,7 +383,11 @@ func runGroupSam(c *core.Ctx, recs []samRec, failNew bool, failReadAt int) (grou
 		}
 		groups = append(groups, o)
 	}
-	return groups, len(cH.Sent), len(cD.Sent), len(cE.Sent), e
+	done = len(cD.Sent)
+	if done == 0 && cG.Closed {
+		done = 1 // completion signalled by closing the stream of groups instead of a token on a done channel
+	}
+	return groups, len(cH.Sent), done, len(cE.Sent), e
 }
 
 func c01Grouping(c *core.Ctx) {
